@@ -536,7 +536,7 @@ pub fn check(tier: Tier) -> i32 {
             eligible.push(st);
         }
     }
-    let stride: usize = std::env::var("PDLMC_C07_STRIDE").ok().and_then(|s| s.parse().ok()).unwrap_or(if thorough { 24 } else { 5 });
+    let stride: usize = std::env::var("PDLMC_C07_STRIDE").ok().and_then(|s| s.parse().ok()).unwrap_or(if thorough { 40 } else { 5 });
     let limit: usize = std::env::var("PDLMC_LIMIT").ok().and_then(|s| s.parse().ok()).unwrap_or(usize::MAX);
     let chosen: Vec<&Selected> = eligible.iter().copied().step_by(stride.max(1)).take(limit).collect();
     eprintln!("C07: {} rust states, {} in the intersection, {} chosen ({:.1}s)", h.states.len(), eligible.len(), chosen.len(), ev.start.elapsed().as_secs_f64());
@@ -547,17 +547,42 @@ pub fn check(tier: Tier) -> i32 {
     }
     let tasks: Vec<(usize, usize, Vec<usize>)> = by_shard.iter().flat_map(|(sh, ids)| ids.chunks(8).enumerate().map(|(k, c)| (*sh, k, c.to_vec())).collect::<Vec<_>>()).collect();
     let machinery: AtomicUsize = AtomicUsize::new(0);
-    let rust_obs: Vec<J> = tasks
+    // each task's observation document is digested at once (and the raw JSON dropped): a type
+    // keeps at most `keep` inputs (all in quick; the thorough harness enumerates 12 000 per type,
+    // of which the first 3 000 — own encodings first, then the enumeration order — are compared)
+    let keep: usize = if thorough { 3000 } else { usize::MAX };
+    enum Digest {
+        Ops(usize, bool, Vec<TypeOps>),
+        Died(usize, String),
+    }
+    let digest = |o: &J| -> Option<Digest> {
+        let id = o["state"].as_u64().unwrap_or(0) as usize;
+        if let Some(d) = o.get("died") {
+            return Some(Digest::Died(id, d.as_str().unwrap_or("").to_string()));
+        }
+        let st = &h.states[id];
+        let big = o["big"].as_bool().unwrap_or(false);
+        let inl = rules::inline_groups(&st.desc)?;
+        let mut tops = parse_rust_observation(&o["types"], &inl);
+        for t in tops.iter_mut() {
+            if t.inputs.len() > keep {
+                t.inputs.truncate(keep);
+                t.rust_dec.truncate(keep);
+            }
+        }
+        Some(Digest::Ops(id, big, tops))
+    };
+    let digests: Vec<Digest> = tasks
         .par_iter()
         .flat_map(|(shard, k, ids)| match rustgen::run_task_checked(&h, *shard, 1000 + *k, "C07", tier, ids) {
-            rustgen::TaskResult::Done(v) => v["observations"].as_array().cloned().unwrap_or_default(),
+            rustgen::TaskResult::Done(v) => v["observations"].as_array().map(|a| a.iter().filter_map(|o| digest(o)).collect::<Vec<_>>()).unwrap_or_default(),
             _ => {
-                // isolate state by state; a death is recorded as an empty observation
+                // isolate state by state; a death is recorded as such
                 let mut out = vec![];
                 for id in ids {
                     match rustgen::run_task_checked(&h, *shard, 1000 + *k, "C07", tier, &[*id]) {
-                        rustgen::TaskResult::Done(v) => out.extend(v["observations"].as_array().cloned().unwrap_or_default()),
-                        rustgen::TaskResult::Died { how, .. } => out.push(json!({"state": id, "died": how})),
+                        rustgen::TaskResult::Done(v) => out.extend(v["observations"].as_array().map(|a| a.iter().filter_map(|o| digest(o)).collect::<Vec<_>>()).unwrap_or_default()),
+                        rustgen::TaskResult::Died { how, .. } => out.push(Digest::Died(*id, how)),
                         rustgen::TaskResult::Machinery(m) => {
                             eprintln!("machinery: {m}");
                             machinery.fetch_add(1, Ordering::Relaxed);
@@ -571,24 +596,17 @@ pub fn check(tier: Tier) -> i32 {
     eprintln!("C07: rust observations collected ({:.1}s)", ev.start.elapsed().as_secs_f64());
     let mut ops_by_state: BTreeMap<usize, StateOps> = BTreeMap::new();
     let mut rust_deaths: Vec<(usize, String)> = vec![];
-    for o in &rust_obs {
-        let id = o["state"].as_u64().unwrap_or(0) as usize;
-        if let Some(d) = o.get("died") {
-            rust_deaths.push((id, d.as_str().unwrap_or("").to_string()));
-            continue;
-        }
-        let st = &h.states[id];
-        let big = o["big"].as_bool().unwrap_or(false);
-        let inl = match rules::inline_groups(&st.desc) {
-            Some(i) => i,
-            None => continue,
-        };
-        let tops = parse_rust_observation(&o["types"], &inl);
-        let e = ops_by_state.entry(id).or_insert_with(|| StateOps { le: vec![], be: vec![] });
-        if big {
-            e.be = tops
-        } else {
-            e.le = tops
+    for d in digests {
+        match d {
+            Digest::Died(id, how) => rust_deaths.push((id, how)),
+            Digest::Ops(id, big, tops) => {
+                let e = ops_by_state.entry(id).or_insert_with(|| StateOps { le: vec![], be: vec![] });
+                if big {
+                    e.be = tops
+                } else {
+                    e.le = tops
+                }
+            }
         }
     }
     // 4. the other three legs
